@@ -104,6 +104,12 @@ Fixpoint sub_pattern (sl : list slice) (p : list (option Z)) : list (option Z) :
   | _, _ => []
   end.
 
+(* [mdspan.sub.helpers]: first_ / last_ of the k-th slice specifier, x = the source extent of that dimension *)
+Definition first_ (s : slice) : Z :=
+  match s with SlFull => 0 | SlIndex k => k | SlPair a _ | SlCPair a _ => a end.
+Definition last_ (x : Z) (s : slice) : Z :=
+  match s with SlFull => x | SlIndex k => k + 1 | SlPair _ b | SlCPair _ b => b end.
+
 (* [span.sub]: the count elements starting at offset *)
 Definition sub_range {A} (l : list A) (offset count : Z) : list A :=
   firstn (Z.to_nat count) (skipn (Z.to_nat offset) l).
